@@ -28,9 +28,9 @@ import (
 func TestVerifC07(t *testing.T) {
 	vfMain(t, vfCheck{
 		ID: "C07", Level: "fault_enumeration",
-		Rule: "8 base sessions x {Server, RequestServer} x allocator {off,on} x transport {close-both, keep-input-after-Close}; mutations of request j: stream EOF at a byte offset inside it (quick: first/last 2 offsets + seeded 15%; thorough: every offset), well-framed truncation of the body at every offset the reference decoder rejects, every 4-byte window that is a string-length field replaced by {n+1, 2^20, 2^31-1, 2^32-1}, zero-length and oversized frames, every unknown/response type byte (one request per session), plus 'ambiguous' mutations (garbage inside the frame, random byte flips) judged by the robustness oracles only. A class is (session, config, request index, mutation kind).",
+		Rule:        "8 base sessions x {Server, RequestServer} x allocator {off,on} x transport {close-both, keep-input-after-Close}; mutations of request j: stream EOF at a byte offset inside it (quick: first/last 2 offsets + seeded 15%; thorough: every offset), well-framed truncation of the body at every offset the reference decoder rejects, every 4-byte window that is a string-length field replaced by {n+1, 2^20, 2^31-1, 2^32-1}, zero-length and oversized frames, every unknown/response type byte (one request per session), plus 'ambiguous' mutations (garbage inside the frame, random byte flips) judged by the robustness oracles only. A class is (session, config, request index, mutation kind).",
 		Assumptions: []string{"a mutation is 'definitely malformed' only if the independent reference decoder rejects it (or it is a framing violation / non-request type)", "sessions are sequential (determinate), so the two runs are comparable", "race detector on"},
-		Units: func(tier vfTier, seed uint64) int { return 8 * 4 * 2 },
+		Units:       func(tier vfTier, seed uint64) int { return 8 * 4 * 2 },
 		Shards: func(tier vfTier) int {
 			if tier == vfThorough {
 				return 16
@@ -167,7 +167,6 @@ func c07Sessions(e *c07Env) [][]vfPkt {
 		},
 	}
 }
-
 
 type c07Mut struct {
 	j       int    // index of the mutated request
@@ -439,7 +438,6 @@ func c07Run(u *vfUnit) {
 		}
 	}
 }
-
 
 // c07SameReply compares two replies of the same server to the same request on
 // identical state. Values that legitimately move between two runs are masked:
